@@ -57,6 +57,10 @@ def main():
     # 2. store
     dest = os.path.join(ROOT, 'seeded', f'{props[0]}_{mut}')
     os.makedirs(dest, exist_ok=True)
+    old = os.path.join(dest, 'meta.json')
+    if os.path.exists(old):
+        prev = json.load(open(old))
+        meta['history'] = prev.get('history', []) + [{'ran': prev.get('ran'), 'detected_by': prev.get('detected_by')}]
     for f in ('patch.diff', 'demo.py', 'notes.md'):
         if os.path.exists(os.path.join(mdir, f)):
             shutil.copy(os.path.join(mdir, f), os.path.join(dest, f))
